@@ -350,3 +350,44 @@ Proof.
   - intro E. apply N.eqb_eq in E. rewrite <- F2 in E. apply existsb_exists in E as (x & I & Ex).
     apply N.eqb_eq in Ex. subst x. exact I.
 Qed.
+
+(* ---- no gap after the first map, no orphan table ------------------------------------------------------ *)
+Lemma from_threshold {A} (d : N -> option A) thr :
+  (forall run, d run = d (rep all_points run)) ->
+  existsb (N.eqb thr) probe_runs = true ->
+  forallb (fun q => if thr <=? q then is_some (d q) else true) probe_runs = true ->
+  forall run, thr <= run -> d run <> None.
+Proof.
+  intros R T F run L. rewrite R. rewrite forallb_forall in F.
+  specialize (F _ (rep_in all_points run)). cbv beta in F.
+  assert (thr <= rep all_points run) as G.
+  { apply existsb_exists in T as (x & I & E). apply N.eqb_eq in E. subst x.
+    destruct I as [<-|I]; [lia|]. apply rep_ge; assumption. }
+  replace (thr <=? rep all_points run) with true in F by (symmetry; apply N.leb_le; exact G).
+  destruct (d (rep all_points run)); [discriminate|]. cbn in F. discriminate.
+Qed.
+
+Theorem maps_no_gap_lemma : forall run,
+  (wire_first_threshold <= run -> wire_dispatch run <> None)
+  /\ (pad_first_threshold <= run -> pwb_dispatch run <> None).
+Proof.
+  intro run. split.
+  - apply (from_threshold wire_dispatch wire_first_threshold wire_dispatch_rep); vm_compute; reflexivity.
+  - apply (from_threshold pwb_dispatch pad_first_threshold pwb_dispatch_rep); vm_compute; reflexivity.
+Qed.
+
+Definition used_check (arms : list (rpat * option N)) (ntables : N) : bool :=
+  forallb (fun t => existsb (fun q => opt_eqb (dispatch arms q) (Some t)) probe_runs) (rangeN ntables).
+Lemma used_spec arms n : used_check arms n = true -> forall t, t < n -> exists run, dispatch arms run = Some t.
+Proof.
+  unfold used_check. intros F t L. rewrite forallb_forall in F. specialize (F t (proj2 (In_rangeN _ _) L)).
+  apply existsb_exists in F as (q & _ & E). exists q. destruct (dispatch arms q) as [x|]; cbn in E; [|discriminate].
+  apply N.eqb_eq in E. congruence.
+Qed.
+
+(* every translated table is selected by some run number (a new table with a forgotten arm is caught here) *)
+Theorem every_table_used_lemma :
+  (forall t, t < lenN preamp_tables -> exists run, dispatch preamp_arms run = Some t)
+  /\ (forall t, t < lenN channel_tables -> exists run, dispatch channel_arms run = Some t)
+  /\ (forall t, t < lenN pwb_tables -> exists run, pwb_dispatch run = Some t).
+Proof. repeat split; apply used_spec; vm_compute; reflexivity. Qed.
